@@ -4,7 +4,8 @@ let () =
   let ic = open_in file in
   let run = match prop with
     | "c04" -> C04.run_line
-    | "c01" | "c02" | "c12" | "c20" -> C02.run_line
+    | "c20" -> C20.run_line
+    | "c01" | "c02" | "c12" -> C02.run_line
     | "c05" -> C05.run_line
     | "c06" | "c07" -> C06.run_line
     | "c08" -> C08.run_line
